@@ -1,4 +1,5 @@
 import SciVerif.Lemmas.Slots
+import SciVerif.Lemmas.SlotsBarrier
 /-!
 # C07 — task slots are deadlock-free and work-conserving
 
@@ -8,6 +9,11 @@ import SciVerif.Lemmas.Slots
   execution is finite and (with the above) ends with all tasks done.
 
 
+* `c07_work_conserving`: when the tasks of a workload fit into the slots together (Σ cores ≤ max)
+  and behave as a rendezvous (none leaves `run` before all of them run — `stepB`), there is still
+  no deadlock: every reachable unfinished state has an enabled step; since every step decreases the
+  measure, every maximal execution ends with all tasks done, and the first task to leave `run` did
+  so in a state where all of them were executing simultaneously.
 * `c07_needs_mutex` (negative): without the mutex two 2-core tasks on 2 slots deadlock.
 * `c07_oversize_deadlocks` (negative): a task with `cores > max` blocks forever inside the
   deposit loop — this is why `Process.Run` must reject it up front (Tie A checks that it does).
@@ -46,6 +52,37 @@ theorem c07_measure_init (max : Nat) (cores : List Nat) :
   | nil => simp
   | cons c cs ih => simp only [List.map_cons, List.sum_cons, ih]; simp [mu]
 
+/-- work conservation: k tasks that fit together do get to execute simultaneously — under
+rendezvous behaviour (nobody finishes before everybody runs) the slot mechanism never blocks -/
+theorem c07_work_conserving (sem : SlotSem) (hl : sem.locked = true) (max : Nat) (cores : List Nat)
+    (hfit : cores.sum ≤ max) (sched : List Nat) (s : St)
+    (h : runB sem (init max cores) sched = some s) (hnd : allDone s = false) :
+    ∃ i s', stepB sem s i = some s' := by
+  have hr := runB_run sem _ s sched h
+  obtain ⟨hinv, hm⟩ := run_inv sem _ s sched (init_inv max cores) hr
+  have hmx := run_acqCount sem hl _ s sched (by rw [init_acqCount]; omega) hr
+  have hsum : sumBy (·.cores) s.tasks ≤ s.max := by
+    rw [run_sumBy_cores sem _ s sched hr, hm]
+    simp only [init, sumBy, List.map_map]
+    have hmap : ∀ l : List Nat, (l.map ((fun t : Task => t.cores) ∘ fun c => ({ cores := c, ph := .idle } : Task))) = l := by
+      intro l
+      induction l with
+      | nil => rfl
+      | cons c cs ih => simp [ih]
+    rw [hmap]; exact hfit
+  apply barrier_no_deadlock sem s hinv hmx hsum
+  simp only [allDone, List.all_eq_false] at hnd
+  obtain ⟨t, ht, hd⟩ := hnd
+  exact ⟨t, ht, by simpa using hd⟩
+
+/-- rendezvous executions are executions: the termination bound applies to them too -/
+theorem c07_work_conserving_terminates (sem : SlotSem) (max : Nat) (cores : List Nat) (sched : List Nat) (s : St)
+    (h : runB sem (init max cores) sched = some s) : sched.length + measure s ≤ measure (init max cores) :=
+  c07_terminates sem max cores sched s (runB_run sem _ s sched h)
+
+/-- instance: two 2-core tasks on 4 slots under rendezvous reach the state where both run -/
+example : ∃ s, runB ⟨true⟩ (init 4 [2, 2]) [0, 0, 0, 1, 1, 1] = some s ∧ s.tasks.all isRun = true := ⟨_, rfl, by decide⟩
+
 /-- negative: without the mutex, max = 2 and cores [2,2] reach a stuck, unfinished state -/
 theorem c07_needs_mutex :
     ∃ s, run ⟨false⟩ (init 2 [2, 2]) [0, 1, 0, 1] = some s ∧ allDone s = false ∧ succs ⟨false⟩ s = [] := by
@@ -64,6 +101,8 @@ end SciVerif.Slots
 
 #print axioms SciVerif.Slots.c07_no_deadlock
 #print axioms SciVerif.Slots.c07_terminates
+#print axioms SciVerif.Slots.c07_work_conserving
+#print axioms SciVerif.Slots.c07_work_conserving_terminates
 #print axioms SciVerif.Slots.c07_measure_init
 #print axioms SciVerif.Slots.c07_needs_mutex
 #print axioms SciVerif.Slots.c07_oversize_deadlocks
